@@ -448,3 +448,71 @@ func resolveLocal(v ssa.Value) ssa.Value {
 	}
 	return v
 }
+
+// stripZeroMerge looks through merges whose other inputs are zero values: phi(0, v) is v for a
+// rule in which the zero value is the safe side (an empty buffer does not decode, the zero
+// address equals no peer). This is the form a helper with `return 0, T{}, err` failure arms
+// leaves behind once it is inlined.
+func stripZeroMerge(v ssa.Value) ssa.Value {
+	for d := 0; d < 6; d++ {
+		ph, ok := v.(*ssa.Phi)
+		if !ok {
+			return v
+		}
+		var other ssa.Value
+		for _, e := range ph.Edges {
+			if c, isC := e.(*ssa.Const); isC && (c.Value == nil || c.IsNil() || isZeroConst(c)) {
+				continue
+			}
+			if other != nil && other != e {
+				return v
+			}
+			other = e
+		}
+		if other == nil {
+			return v
+		}
+		v = other
+	}
+	return v
+}
+
+// copyClosure returns the access paths of the locals of type typeName that hold a copy of the
+// local at seedPath: every whole store to such a local is the zero value or a load of a local
+// already in the set (v2 = v1, also on the success arm of an inlined helper whose failure arms
+// return T{}).
+func copyClosure(fn *ssa.Function, seedPath, typeName string) map[string]bool {
+	paths := map[string]bool{seedPath: true}
+	pathOf := func(v ssa.Value) string { return strings.TrimPrefix(ana.AccessPath(v), "&") }
+	for changed := true; changed; {
+		changed = false
+		for _, b := range fn.Blocks {
+			for _, in := range b.Instrs {
+				al, ok := in.(*ssa.Alloc)
+				if !ok || paths[pathOf(al)] || typeNameOf(al.Type()) != typeName {
+					continue
+				}
+				okAll, n := true, 0
+				for _, ref := range ana.Referrers(al) {
+					st, ok := ref.(*ssa.Store)
+					if !ok || st.Addr != ssa.Value(al) {
+						continue
+					}
+					if _, isC := st.Val.(*ssa.Const); isC {
+						continue
+					}
+					if ld, ok := st.Val.(*ssa.UnOp); ok && ld.Op == token.MUL && paths[pathOf(ld.X)] {
+						n++
+						continue
+					}
+					okAll = false
+				}
+				if okAll && n > 0 {
+					paths[pathOf(al)] = true
+					changed = true
+				}
+			}
+		}
+	}
+	return paths
+}
